@@ -287,6 +287,28 @@ pub async fn run_suite(seed: u64, cases: usize) -> String {
         "hang".into()
       },
     };
+    // ---- implementation-only oracles (the property statements, independent of the Lean mapping)
+    {
+      let sp: Vec<&str> = shape.split(':').collect();
+      if let Some(u) = res.strip_prefix("success:") {
+        if !(sp[0] == "authack" && sp[1] == "1" && sp[2] == u) {
+          fails.push(format!("C09: [s2m-auth-not-positive] the S2M client reported Success({u}) for the reply `{shape}`"));
+        }
+      }
+      if res == "valid" && !(sp[0] == "payack" && sp[1] == "1" && sp[2] == "none") {
+        fails.push(format!("C08: [s2m-valid-not-positive] the S2M client reported Valid for the reply `{shape}`"));
+      }
+      if let Some(h) = res.strip_prefix("altered:") {
+        if !(sp[0] == "payack" && sp[1] == "1" && sp[2] == "intact" && sp[3] == h) {
+          fails.push(format!("C08: [s2m-altered-not-faithful] the S2M client reported an alteration to {h} for the reply `{shape}`"));
+        }
+      }
+      let positive = shape == "evack" || (sp[0] == "authack" && sp[1] == "1" && sp[2] != "-") || shape.starts_with("payack:1:none") || shape.starts_with("payack:1:intact");
+      let got_positive = res == "ok" || res.starts_with("success:") || res == "valid" || res.starts_with("altered:");
+      if positive && !got_positive {
+        fails.push(format!("C16: [not-completed-by-own-reply] the peer answered the {what} request with `{shape}` but the client concluded `{res}`"));
+      }
+    }
     let _ = writeln!(t, "s2m {what} {shape}\nimpl {res}");
     if link_broken || res == "hang" {
       // after a broken frame the byte stream is out of step: start a fresh link
